@@ -50,6 +50,8 @@ type Exec struct {
 	aborting bool
 	epoch    uint64
 	objs     []*obj
+	named    map[string]*obj // package-level variables seen by Access
+	Accesses int             // Access points executed
 	Events   []string
 	cache    *Cache
 	bound    int // preemption bound (-1 none)
@@ -135,6 +137,32 @@ func Event(s string) {
 	e.epoch++
 	e.Events = append(e.Events, s)
 	e.cur.hist = mix(e.cur.hist, hashStr(s), uint64(len(e.Events)))
+}
+
+// Access is the scheduling point the source instrumentation (rewrite globals)
+// puts in front of every statement that mentions mutable package-level state;
+// names is the comma-separated list of the variables. The statement that
+// follows runs atomically; for the happens-before hash it is a conflicting
+// operation on every one of the variables (reads are not told from writes).
+func Access(names string) {
+	e := E
+	if e == nil || e.aborting {
+		return
+	}
+	e.point("access:"+names, func() bool { return true })
+	e.Accesses++
+	if e.named == nil {
+		e.named = map[string]*obj{}
+	}
+	for _, n := range strings.Split(names, ",") {
+		o := e.named[n]
+		if o == nil {
+			o = &obj{kind: "var:" + n, hist: hashStr("var:" + n)}
+			e.named[n] = o
+			e.objs = append(e.objs, o)
+		}
+		e.touch(o, "access", 0)
+	}
 }
 
 // key computes the state key at a scheduling point.
